@@ -44,6 +44,7 @@ def check(model: Model, rep: Report, tier: str):
     r6(model, rep)
     r7(model, rep)
     r8(model, rep)
+    r9(model, rep)
 
 
 # ---------------------------------------------------------------------------------------------
@@ -465,6 +466,10 @@ def r7(model: Model, rep: Report):
             implies_rel = _implies(ev, bp.cond, t_not(no_rel))
             if sts:
                 n_store_paths += 1
+                order = ["store" if e.kind == "store" else "decompose" for e in bp.events
+                         if (e.kind == "store" and e.term[2] == "relation_link") or (e.kind in ("effect", "assign") and e.term is not None and find_calls(e.term, "decomposed_operations"))]
+                if "decompose" in order and order.index("decompose") < order.index("store"):
+                    bad.append("the child is decomposed before it receives the block's link (its own first operations are listed with the old link)")
                 if not implies_norel:
                     bad.append(f"re-links an operation that has a relation (path [{show(bp.cond)}])")
                 for t in sts:
@@ -567,3 +572,15 @@ def r8(model: Model, rep: Report):
         o = dict(o)
         o["rule"] = "C01.R8"
         rep.obligations.append(o)
+
+
+def r9(model: Model, rep: Report):
+    """Reported times are the solution of the equations only if memoised start times are invalidated (shared with C03.H1)."""
+    from ..effects import Effects
+    from ..resolve import CallGraph
+    from .c03 import h1
+    from .common import share_rule
+    cg = CallGraph(model)
+    share_rule(rep, model, lambda m, r: h1(m, r, cg, Effects(m, cg)), "C01.R9",
+               "the reported time is the CURRENT solution of the equations: every writer of a duration setting, link or graph that the "
+               "memoised get_start_time functions read invalidates the memo (= C03.H1)")
